@@ -81,14 +81,71 @@ def tier_sizes(tier, quick, thorough):
     return thorough if tier == "thorough" else quick
 
 
-def run_hist_property(rep, tier, seed, wd, pid, kinds, opts, sizes, judge=True, sig=True, extra_hist=None,
-                      nontrivial=None):
+def judge_slash(pid):
+    want = {"C01": "att", "C02": "prop"}[pid]
+
+    def fn(rep, dh, wd, all_h):
+        bad, nrel = engines.judge_slashing(all_h)
+        rep.cov["released_signatures_judged"] = nrel
+        for (hi, kind, key, i, j, data, verdict) in bad:
+            if kind != want:
+                continue
+            h = all_h[hi]
+
+            def pred(ops, impl, model, crashed, h=h, kind=kind):
+                hh = dict(h, ops=ops, impl=impl, model=model)
+                b, _ = engines.judge_slashing([hh])
+                return any(x[1] == kind for x in b)
+            small = engines.shrink_history(dh, wd, h, pred) if len(h["ops"]) > 3 else h["ops"]
+            fields = data.split(",")
+            nums = [fields[4], fields[6]] if kind == "att" else [fields[1]]
+            key_desc = "%s-%s" % (kind, "epoch>=2^63" if any(int(x) >= TWO63 for x in nums) else "general")
+            rep.violation(key_desc,
+                          "implementation released %s signatures judged %s by the Lean Spec predicate" % (kind, verdict),
+                          {"config": h["cfg"], "ops": small, "gomaxprocs": h.get("gomaxprocs")})
+            return True
+        return False
+    return fn
+
+
+def judge_lines(rep, all_h, make_lines, label):
+    """Generic judge: make_lines(h) yields (judge line, meta); runs them through the Lean driver."""
+    lines, index = [], []
+    for hi, h in enumerate(all_h):
+        lines.append("reset")
+        lines += [l for l in h["cfg"] if l.split()[0] in ("admin",)]
+        for (l, meta) in make_lines(h):
+            lines.append(l)
+            index.append((hi,) + tuple(meta))
+    from common import run_model
+    out = run_model(lines)
+    rep.cov[label] = len(index)
+    return [m + (o.strip(),) for m, o in zip(index, out) if o.strip() != "ok"]
+
+
+def judge_sig(rep, dh, wd, all_h):
+    badsig, nsig = engines.sigcheck(dh, all_h)
+    rep.cov["signatures_verified_against_model_root"] = nsig
+    if badsig:
+        hi, i, j = badsig[0]
+        rep.violation("bad-signature", "signature does not verify under the addressed key over the model's signing root",
+                      {"config": all_h[hi]["cfg"], "ops": all_h[hi]["ops"][:i + 1], "position": j,
+                       "gomaxprocs": all_h[hi].get("gomaxprocs")})
+        return True
+    return False
+
+
+SIGN_KINDS = ("att", "atts", "atts0", "prop", "sign", "msign")
+
+
+def run_hist_property(rep, tier, seed, wd, pid, kinds, opts, sizes, judges=(), extra_hist=None,
+                      nontrivial=None, corpus=True):
     """Common flow of the hist-engine properties. `kinds` = op kinds whose disagreement matters here."""
     dh = build_harness(wd)
     keys = hist.interop_keys(dh)
     rng = Rng(seed * 1000003 + sum(ord(c) for c in pid))
     n_hist, n_ops = sizes
-    hs = corpus_histories(keys, pid)
+    hs = corpus_histories(keys, pid) if corpus else []
     if extra_hist:
         hs += extra_hist(keys, rng)
     hs += engines.gen_histories(rng, keys, n_hist, n_ops, opts)
@@ -96,7 +153,6 @@ def run_hist_property(rep, tier, seed, wd, pid, kinds, opts, sizes, judge=True, 
     all_h = []
     for p in procs:
         env = {"GOMAXPROCS": str(p)} if p else None
-        import copy
         cur = [dict(h) for h in hs]
         crashed, err = engines.exec_histories(dh, wd, cur, env=env)
         if crashed:
@@ -105,59 +161,43 @@ def run_hist_property(rep, tier, seed, wd, pid, kinds, opts, sizes, judge=True, 
             h["gomaxprocs"] = p
         all_h += cur
     rep.cov["traces_validated_against_impl"] = len(all_h)
-    # correspondence
     first_bad = None
     for hi, h in enumerate(all_h):
         rel = [b for b in h["bad"] if b[1].split()[0] in kinds or b[0] == -1]
         if rel and first_bad is None:
             first_bad = (hi, rel[0])
-        for op in h["ops"]:
+        for i, op in enumerate(h["ops"]):
             k = op.split()[0]
             rep.dist("op", k)
-        for i, op in enumerate(h["ops"]):
-            if i < len(h["impl"]) and op.split()[0] in kinds and op.split()[0] in ("att", "atts", "atts0", "prop", "sign", "msign"):
-                for s in hist.states_of(h["impl"][i]):
-                    rep.dist("state", s)
+            if i < len(h["impl"]) and k in kinds and k in SIGN_KINDS:
+                for st in hist.states_of(h["impl"][i]):
+                    rep.dist("state", st)
+                fl = op.split()[5] if k in ("att", "prop", "sign") else (op.split()[3] if k in ("atts", "msign") else "-")
+                if fl != "-":
+                    rep.dist("fault", fl[0])
         nt = nontrivial(h) if nontrivial else True
         rep.count(json.dumps(h["ops"]), nt)
     if all_h:
-        rep.sample({"ops": all_h[-1]["ops"][:6], "impl": all_h[-1]["impl"][:6], "model": all_h[-1]["model"][:6]})
+        h = all_h[-1]
+        rep.sample({"ops": [o[:300] for o in h["ops"][:3]], "impl": [o[:80] for o in h["impl"][:3]],
+                    "model": [o[:80] for o in h["model"][:3]]})
     found_violation = False
-    if judge:
-        bad, nrel = engines.judge_slashing(all_h)
-        rep.cov["released_signatures_judged"] = nrel
-        want = {"C01": "att", "C02": "prop"}.get(pid)
-        for (hi, kind, key, i, j, data, verdict) in bad:
-            if want and kind != want:
-                continue
+    for jf in judges:
+        if jf(rep, dh, wd, all_h):
             found_violation = True
-            h = all_h[hi]
-            # shrink: keep failing = judge still flags something of this kind
-            def pred(ops, impl, model, crashed, h=h, kind=kind):
-                hh = dict(h, ops=ops, impl=impl, model=model)
-                b, _ = engines.judge_slashing([hh])
-                return any(x[1] == kind for x in b)
-            small = engines.shrink_history(dh, wd, h, pred) if len(h["ops"]) > 3 else h["ops"]
-            fields = data.split(",")
-            key_desc = ("%s-%s" % (kind, "epoch>=2^63" if any(int(x) >= TWO63 for x in ([fields[4], fields[6]] if kind == "att" else [fields[1]])) else "general"))
-            rep.violation(key_desc,
-                          "implementation released %s signatures judged %s by the Lean Spec predicate" % (kind, verdict),
-                          {"config": h["cfg"], "ops": small, "gomaxprocs": h.get("gomaxprocs"),
-                           "run": "./check %s --replay <this file>" % pid})
-            break
-    if sig:
-        badsig, nsig = engines.sigcheck(dh, all_h)
-        rep.cov["signatures_verified_against_model_root"] = nsig
-        if badsig and pid in ("C08",):
-            hi, i, j = badsig[0]
-            found_violation = True
-            rep.violation("bad-signature", "signature does not verify under the addressed key over the model's signing root",
-                          {"config": all_h[hi]["cfg"], "ops": all_h[hi]["ops"][:i + 1], "position": j})
     if first_bad is not None:
         hi, (i, op, il, ml) = first_bad
+        h = all_h[hi]
+
+        def pred(ops, impl, model, crashed, kinds=kinds):
+            return any(b[1].split()[0] in kinds for b in hist.compare_lines(ops, impl, model))
+        try:
+            small = engines.shrink_history(dh, wd, dict(h, ops=h["ops"][:i + 1]), pred, max_trials=40) if i >= 0 else h["ops"][:1]
+        except Exception:
+            small = h["ops"][:i + 1]
         rep.broken.append(("correspondence:hist(model %s vs implementation)" % pid,
                            json.dumps({"first_disagreement": {"op_index": i, "op": op, "impl": il, "model": ml},
-                                       "config": all_h[hi]["cfg"], "ops": all_h[hi]["ops"][:i + 1]}), found_violation))
+                                       "config": h["cfg"], "ops_minimised": small}), found_violation))
     return all_h
 
 
@@ -178,7 +218,7 @@ def c01(rep, tier, seed, wd, replay):
         ks = [r[1] for r in rel if r[0] == "att"]
         return len(ks) != len(set(ks)) or any("D" in hist.states_of(l) for l in h["impl"] if l)
     run_hist_property(rep, tier, seed, wd, "C01", ("att", "atts", "atts0", "export", "restart"), opts, sizes,
-                      nontrivial=nontriv)
+                      judges=[judge_slash("C01")], nontrivial=nontriv)
 
 
 def c02(rep, tier, seed, wd, replay):
@@ -194,7 +234,162 @@ def c02(rep, tier, seed, wd, replay):
         ks = [r[1] for r in rel if r[0] == "prop"]
         return len(ks) != len(set(ks)) or any(op.startswith("prop") and "D" in hist.states_of(l)
                                               for op, l in zip(h["ops"], h["impl"]))
-    run_hist_property(rep, tier, seed, wd, "C02", ("prop", "export", "restart"), opts, sizes, nontrivial=nontriv)
+    run_hist_property(rep, tier, seed, wd, "C02", ("prop", "export", "restart"), opts, sizes,
+                      judges=[judge_slash("C02")], nontrivial=nontriv)
+
+
+def c05(rep, tier, seed, wd, replay):
+    rep.cov["rule"] = ("histories dominated by generic sign / multisign requests and cross-domain attestation/proposal requests: "
+                       "every known 4-byte domain type x zero/random suffix, near misses, short and nil domains; admin lists "
+                       "empty/one/many; source absent/listed/unlisted/alternative textual form; non-trivial = contains a request "
+                       "under a slashable or exit domain type")
+    rep.assumptions += ["domain type constants live in go-eth2-types (a dependency), the model's values are validated by this engine"]
+    prove(rep, "C05")
+    sizes = tier_sizes(tier, (40, 40), (400, 100))
+    opts = {"faults": False, "huge": False,
+            "weights": [("att", 14), ("atts", 10), ("prop", 14), ("sign", 30), ("msign", 24), ("export", 6), ("restart", 2)],
+            "admins": [[], ["10.0.0.1"], ["10.0.0.1", "::1", "192.168.1.1"]]}
+
+    def lines(h):
+        for (k, key, data, sig, i, j, st) in hist.released(h["ops"], h["impl"], h["accts"]):
+            dom = data.split(",")[0]
+            if k == "sign":
+                ip = h["ops"][i].split()[2]
+                yield ("jsign %s %s" % (ip if ip != "-" else ".", dom), (i, j, h["ops"][i][:200]))
+            else:
+                yield ("jdom %s %s" % (k, dom), (i, j, h["ops"][i][:200]))
+
+    def judge(rep, dh, wd, all_h):
+        bad = judge_lines(rep, all_h, lines, "released_signatures_judged")
+        if bad:
+            hi, i, j, op, verdict = bad[0]
+            rep.violation("domain-" + verdict, "a signature was released that the Lean predicate forbids: " + verdict,
+                          {"config": all_h[hi]["cfg"], "ops": all_h[hi]["ops"][:i + 1], "position": j})
+            return True
+        return False
+
+    def nontriv(h):
+        for op in h["ops"]:
+            f = op.split()
+            if f[0] in ("sign", "msign"):
+                blob = f[4]
+                if any(x in blob for x in ("01000000", "00000000", "04000000")):
+                    return True
+        return False
+    run_hist_property(rep, tier, seed, wd, "C05", SIGN_KINDS + ("export",), opts, sizes, judges=[judge],
+                      nontrivial=nontriv, corpus=False, extra_hist=c05_corpus)
+
+
+def c05_corpus(keys, rng):
+    accts, perms, _ = hist.std_config(keys, nacct=5)
+    H = []
+    a0 = accts[0]
+    n0 = "n:" + hx(a0.path)
+    r32 = (bytes([0xA1]) * 32).hex()
+    for admins in ([], ["10.0.0.1"]):
+        cfg = hist.config_lines(accts, perms, admins)
+        ops = []
+        for pfx in (DOM_ATT, DOM_PROP, DOM_EXIT, DOM_RANDAO, bytes([0, 0, 0, 1]), bytes([1, 0, 0, 1]), bytes([4, 0, 0, 1])):
+            for suffix in (bytes(28), bytes([0xFF]) * 28):
+                dom = (pfx + suffix).hex()
+                for ip in ("-", hx("10.0.0.1"), hx("10.0.0.2")):
+                    ops.append("sign %s %s %s %s,%s -" % (hx("client1"), ip, n0, dom, r32))
+                ops.append("msign %s %s - %s,%s,%s;n:%s,%s,%s" % (hx("client1"), hx("10.0.0.1"), n0, (DOM_RANDAO + bytes(28)).hex(), r32,
+                                                                  hx(accts[1].path), dom, r32))
+                ops.append(att_line("client1", n0, 1, len(ops) + 5, 0, dom=pfx + suffix))
+                ops.append(prop_line("client1", n0, len(ops) + 5, 0, dom=pfx + suffix))
+        ops.append("export")
+        H.append({"cfg": cfg, "ops": ops, "accts": accts, "opts": {}})
+    return H
+
+
+def c06_faults(keys, rng):
+    """Every single fault at every site, for every request kind and batch position (enumerated)."""
+    accts, perms, admins = hist.std_config(keys, nacct=5)
+    cfg = hist.config_lines(accts, perms, admins)
+    ns = ["n:" + hx(a.path) for a in accts[:4]]
+    r32 = (bytes([0xA1]) * 32).hex()
+    H = []
+    dom_r = (DOM_RANDAO + bytes(28)).hex()
+    for fault in ["f0", "s", "S", "g0"]:
+        H.append({"cfg": cfg, "accts": accts, "opts": {}, "ops": [
+            att_line("client1", ns[0], 1, 2, 0), att_line("client1", ns[0], 2, 3, 0, faults=fault),
+            att_line("client1", ns[0], 2, 3, 1), att_line("client1", ns[0], 3, 4, 1), "export"]})
+        H.append({"cfg": cfg, "accts": accts, "opts": {}, "ops": [
+            prop_line("client1", ns[0], 1, 0), prop_line("client1", ns[0], 2, 0, faults=fault),
+            prop_line("client1", ns[0], 2, 1), prop_line("client1", ns[0], 3, 1), "export"]})
+    H.append({"cfg": cfg, "accts": accts, "opts": {}, "ops": [
+        "sign %s - %s %s,%s g0" % (hx("client1"), ns[0], dom_r, r32), "sign %s - %s %s,%s -" % (hx("client1"), ns[0], dom_r, r32)]})
+    for n in (1, 2, 3, 4):
+        for pos in range(n):
+            for fault in ["f%d" % pos, "s", "S", "g%d" % pos]:
+                items = ";".join(att_item(ns[i], 1, 2, i % 4) for i in range(n))      # distinct data per position
+                items2 = ";".join(att_item(ns[i], 2, 3, (i + 1) % 4) for i in range(n))
+                H.append({"cfg": cfg, "accts": accts, "opts": {}, "ops": [
+                    "atts %s - %s %s" % (hx("client1"), fault, items), "atts %s - - %s" % (hx("client1"), items),
+                    "atts %s - - %s" % (hx("client1"), items2), "export"]})
+            ms = ";".join("%s,%s,%s" % (ns[i], dom_r, (bytes([0xA0 + i]) * 32).hex()) for i in range(n))
+            H.append({"cfg": cfg, "accts": accts, "opts": {}, "ops": ["msign %s - g%d %s" % (hx("client1"), pos, ms)]})
+    # undecodable / truncated / legacy records on disk
+    pk = accts[0].pk
+    raws = [
+        (pk + b"\x02", bytes([1]) + bytes(10)),                 # version 1, wrong length
+        (accts[1].pk + b"\x02", bytes([9, 1, 2, 3])),            # unknown version, not a gob stream
+        (accts[2].pk + b"\x03", bytes([1]) + bytes(3)),          # proposal record, wrong length
+        (accts[3].pk + b"\x03", bytes([0x7f, 0x00])),            # garbage
+    ]
+    cfgr = hist.config_lines(accts, perms, admins, raws)
+    H.append({"cfg": cfgr, "accts": accts, "opts": {}, "ops": [
+        att_line("client1", ns[0], 1, 2, 0), att_line("client1", ns[1], 1, 2, 0), att_line("client1", ns[2], 1, 2, 0),
+        prop_line("client1", ns[2], 5, 0), prop_line("client1", ns[3], 5, 0), prop_line("client1", ns[0], 5, 0),
+        "atts %s - - %s" % (hx("client1"), ";".join([att_item(ns[2], 2, 3, 0), att_item(ns[0], 2, 3, 0)])),
+        "atts %s - - %s" % (hx("client1"), ";".join([att_item(ns[2], 3, 4, 0), att_item(ns[3], 3, 4, 0)])),
+        "export"]})
+    return H
+
+
+def c06(rep, tier, seed, wd, replay):
+    rep.cov["rule"] = ("enumerated: every single fault (state read error, state write error landed/not landed, signing error) at "
+                       "every site for every request kind and every batch position of batches 1..4, undecodable/truncated records "
+                       "on disk; plus seeded histories with a high multi-fault rate, locked accounts, unknown accounts, refused "
+                       "clients, malformed data; non-trivial = history containing an injected fault or a non-SUCCEEDED position")
+    rep.assumptions += ["faults are injected through the verif hooks in Store.Fetch/Store/BatchStore and signRoot; account lookup, "
+                        "permission and unlock failures arise from real configurations (unknown account, refused client, locked "
+                        "account with unknown passphrase)"]
+    prove(rep, "C06")
+    sizes = tier_sizes(tier, (30, 40), (300, 100))
+    opts = {"faults": True, "fault_rate": 0.45, "huge": True}
+
+    def lines(h):
+        for i, op in enumerate(h["ops"]):
+            if op.split()[0] in SIGN_KINDS and i < len(h["impl"]):
+                for j, pos in enumerate(h["impl"][i].split()):
+                    st = pos.split(":")[0]
+                    yield ("jiff %s %d" % (st, 1 if ":" in pos else 0), (i, j, op[:200]))
+
+    def judge(rep, dh, wd, all_h):
+        bad = judge_lines(rep, all_h, lines, "response_positions_judged")
+        if bad:
+            hi, i, j, op, verdict = bad[0]
+            rep.violation("not-closed", "a response position violates signature <-> SUCCEEDED",
+                          {"config": all_h[hi]["cfg"], "ops": all_h[hi]["ops"][:i + 1], "position": j})
+            return True
+        # shape: one position per request
+        for hi, h in enumerate(all_h):
+            for i, op in enumerate(h["ops"]):
+                f = op.split()
+                if f[0] in ("atts", "msign") and i < len(h["impl"]):
+                    if len(h["impl"][i].split()) != len(f[4].split(";")):
+                        rep.violation("shape", "response does not have one position per request",
+                                      {"config": h["cfg"], "ops": h["ops"][:i + 1]})
+                        return True
+        return False
+
+    def nontriv(h):
+        return any(op.split()[0] in SIGN_KINDS and (set(hist.states_of(l)) - {"S"}) for op, l in zip(h["ops"], h["impl"]))
+    run_hist_property(rep, tier, seed, wd, "C06", SIGN_KINDS + ("export",), opts, sizes, judges=[judge],
+                      nontrivial=nontriv, corpus=False, extra_hist=c06_faults)
+    rep.cov["exhaustive"] = False
 
 
 THEOREMS.update({
@@ -202,4 +397,124 @@ THEOREMS.update({
     "C02": ("Dirk.Props.C02", ["Dirk.C02_increasing", "Dirk.C02", "Dirk.C02_legacy_counterexample"]),
 })
 
-CHECKS = {"C01": c01, "C02": c02}
+def run_perm_configs(rep, dh, wd, configs, label="perms"):
+    """configs: list of (cfg_lines, probe_lines). Runs impl+model, diffs, judges with Spec.firstBearing."""
+    from common import run_impl, run_model
+    lines = []
+    for cfg, probes in configs:
+        lines.append("reset")
+        lines += cfg + probes
+    impl, crashed, err = run_impl(dh, wd, lines)
+    if crashed:
+        rep.broken.append(("implementation-crash:" + label, err, False))
+    model = run_model(lines)
+    # judge input
+    jl, jidx = [], []
+    pos = 0
+    first_bad = None
+    allowed = refused = 0
+    for ci, (cfg, probes) in enumerate(configs):
+        jl.append("reset")
+        jl += [l for l in cfg if l != "begin"]
+        ib, mb = (impl[pos] if pos < len(impl) else "<missing>"), (model[pos] if pos < len(model) else "<missing>")
+        if ib != mb and first_bad is None:
+            first_bad = (ci, "begin", ib, mb)
+        rep.dist("checker_construction", ib)
+        pos += 1
+        for pr in probes:
+            i_out = impl[pos] if pos < len(impl) else "<missing>"
+            m_out = model[pos] if pos < len(model) else "<missing>"
+            pos += 1
+            if i_out != m_out and first_bad is None:
+                first_bad = (ci, pr, i_out, m_out)
+            if ib == "ok" and i_out in ("0", "1"):
+                f = pr.split()
+                jl.append("jcheck %s %s %s %s" % (f[1], f[2], f[3], i_out))
+                jidx.append((ci, pr))
+                allowed += i_out == "1"
+                refused += i_out == "0"
+            rep.count(str(cfg) + pr, True)
+    rep.dist("decision", "allowed", allowed)
+    rep.dist("decision", "refused", refused)
+    out = run_model(jl)
+    found = False
+    for (ci, pr), o in zip(jidx, out):
+        if o.strip() != "ok":
+            cfg, probes = configs[ci]
+            # minimise the configuration: drop perm lines while the judge still objects
+            def still(cfg2):
+                i2, _, _ = run_impl(dh, wd, ["reset"] + cfg2 + [pr])
+                if len(i2) < 2 or i2[0] != "ok":
+                    return False
+                f = pr.split()
+                o2 = run_model(["reset"] + [l for l in cfg2 if l != "begin"] + ["jcheck %s %s %s %s" % (f[1], f[2], f[3], i2[1])])
+                return bool(o2) and o2[0].strip() != "ok"
+            perm_lines = [l for l in cfg if l != "begin"]
+            from common import ddmin
+            small = ddmin(perm_lines, lambda sub: still(sub + ["begin"]), max_trials=40) if len(perm_lines) > 1 else perm_lines
+            rep.violation("permission-" + o.strip(), "checker decision differs from the Lean specification firstBearing: " + o.strip(),
+                          {"config": small + ["begin"], "probe": pr,
+                           "decoded": {"perms": [[bytes.fromhex(x).decode() if x not in ("-", ".") else "" for x in l.split()[1:3]] +
+                                                 [[bytes.fromhex(o).decode() if o != "." else "" for o in l.split()[3].split(",")] if l.split()[3] != "-" else []]
+                                                 for l in small if l.startswith("perm ")],
+                                       "probe": [bytes.fromhex(x).decode() if x != "." else "" for x in pr.split()[1:]]}})
+            found = True
+            break
+    rep.cov["decisions_judged"] = len(jidx)
+    if first_bad is not None:
+        ci, pr, io, mo = first_bad
+        rep.broken.append(("correspondence:%s(model Check vs checker/static)" % label,
+                           json.dumps({"config": configs[ci][0], "probe": pr, "impl": io, "model": mo}), found))
+    return found
+
+
+def c07(rep, tier, seed, wd, replay):
+    import perms
+    rep.cov["rule"] = ("permission configurations (1-3 clients x 1-5 ordered entries, wallet/account patterns from a grammar: literals, "
+                       "alternation, prefixes/suffixes, classes, \\d, optional, groups, own anchors, (?i), mixed case; operation lists "
+                       "with All/None/op/~op in any case and order) x probes (names derived from the patterns: exact, extended, "
+                       "case-flipped, empty account; all 9 operations; listed/unknown/empty clients); every (config, probe) pair is "
+                       "counted; plus service-level histories with refused clients (state must stay unchanged)")
+    rep.assumptions += ["Go regexp (RE2) is modelled for the fragment the generator stays in; Unicode case folding is ASCII-only in the model",
+                        "main.go builds each client's entry list by ranging over a Go map: the property and the model take the ordered list handed to the checker"]
+    prove(rep, "C07")
+    dh = build_harness(wd)
+    rng = Rng(seed * 7919 + 7)
+    ncfg, nprobe = tier_sizes(tier, (250, 60), (5000, 120))
+    configs = []
+    # corpus first: the alternation defect and friends
+    for path, probes in [("Wallet1|Wallet2/Acc1|Acc2", ["Wallet10/Acc1", "xWallet2/Acc1", "Wallet1/Acc10", "Wallet1/xAcc2", "Wallet1/Acc1", "wallet2/ACC2"]),
+                         ("^Wallet1|Wallet2$/Acc1", ["Wallet1x/Acc1", "xWallet2/Acc1", "Wallet2/Acc1"]),
+                         ("Wallet1/Acc1$|^Acc2", ["Wallet1/xAcc1", "Wallet1/Acc2x", "Wallet1/Acc2"]),
+                         ("Wallet1", ["Wallet1/anything", "Wallet10/x", "Wallet1/"]),
+                         ("Wallet1/", ["Wallet1/anything", "Wallet1"])]:
+        cfg = perms.config_lines([("client1", path, ["~Sign", "All"])])
+        pr = ["check %s %s %s" % (hx("client1"), hx(a), hx(o)) for a in probes for o in ("Sign", "Access account")]
+        configs.append((cfg, pr))
+    for _ in range(ncfg):
+        r = rng.fork()
+        clients, cfg, bad = perms.gen_config(r)
+        configs.append((perms.config_lines(cfg), perms.gen_probes(r, clients, cfg, nprobe if not bad else 3)))
+    rep.sample({"config": [[bytes.fromhex(x).decode() if x not in ("-", ".") else "" for x in l.split()[1:3]] for l in configs[-1][0] if l.startswith("perm ")],
+                "probes": configs[-1][1][:2]})
+    run_perm_configs(rep, dh, wd, configs)
+    rep.cov["traces_validated_against_impl"] = len(configs)
+    # service level: refused requests leave all state unchanged (model agreement incl. exports)
+    sizes = tier_sizes(tier, (12, 30), (100, 80))
+    opts = {"faults": False, "huge": False}
+    run_hist_property(rep, tier, seed, wd, "C07", SIGN_KINDS + ("export",), opts, sizes, corpus=False)
+
+
+THEOREMS.update({
+    "C07": ("Dirk.Props.C07", ["Dirk.C07_scan_eq_spec", "Dirk.C07_default_deny", "Dirk.C07_unknown_client", "Dirk.C07_no_identity",
+                               "Dirk.C07_refused_no_effect_att", "Dirk.C07_refused_no_effect_prop", "Dirk.C07_refused_no_effect_sign",
+                               "Dirk.C07_refused_no_effect_atts", "Dirk.C07_resolved_account", "Dirk.C07_legacy_counterexample",
+                               "Dirk.C07_fixed_alternation"]),
+    "C05": ("Dirk.Props.C05", ["Dirk.C05_generic_single", "Dirk.C05_generic_multi", "Dirk.C05_attest_only_attester",
+                               "Dirk.C05_propose_only_proposer", "Dirk.C05_logs"]),
+    "C06": ("Dirk.Props.C06", ["Dirk.C06_att", "Dirk.C06_prop", "Dirk.C06_sign", "Dirk.C06_atts", "Dirk.C06_msign",
+                               "Dirk.C06_att_fault", "Dirk.C06_prop_fault", "Dirk.C06_batch_store_fault",
+                               "Dirk.C06_batch_fetch_fault", "Dirk.C06_shape_atts", "Dirk.C06_shape_msign"]),
+})
+
+CHECKS = {"C01": c01, "C02": c02, "C05": c05, "C06": c06, "C07": c07}
